@@ -187,6 +187,7 @@ def run(ctx: common.Run):
     if not ok:
         ctx.report_unproved('lean-build', f'{failing}', {'theorem_or_correspondence': failing})
         return
+    check_qudits_rejected(ctx, cirq)
     n = 150 if ctx.tier == 'quick' else 2500
     rng = ctx.substream('qasm')
     # ---------------------------------------------------------------- unitary circuits
@@ -211,6 +212,10 @@ def run(ctx: common.Run):
             text = circuit.to_qasm(qubit_order=order, precision=precision, version=version)
         except (ValueError, TypeError) as e:
             ctx.count('rejected', f'{type(e).__name__}:{str(e)[:40]}')
+            if isinstance(e, TypeError) or 'Cannot output operation' in str(e):
+                # every operation of these circuits has a matrix (possibly under classical control): it must be decomposed, not refused
+                ctx.report_witness('qasm:not-decomposed', f'to_qasm refuses an operation that has no QASM form of its own instead of decomposing it: {type(e).__name__}: {str(e)[:120]}',
+                                   {'lines': [{'circuit': repr(circuit), 'version': version}], 'impl_out': [str(e)[:300]], 'spec_out': ['decomposed into exportable operations'], 'theorem_or_correspondence': 'Spec.Qasm (decomposition)'})
             continue
         rep = {'lines': [{'circuit': repr(circuit), 'order': [repr(q) for q in order], 'version': version, 'precision': precision, 'qasm': text}]}
         try:
@@ -277,6 +282,10 @@ def run(ctx: common.Run):
             text = circuit.to_qasm(qubit_order=order, version=version)
         except (ValueError, TypeError) as e:
             ctx.count('rejected', f'{type(e).__name__}:{str(e)[:40]}')
+            if isinstance(e, TypeError) or 'Cannot output operation' in str(e):
+                # every operation of these circuits has a matrix (possibly under classical control): it must be decomposed, not refused
+                ctx.report_witness('qasm:not-decomposed', f'to_qasm refuses an operation that has no QASM form of its own instead of decomposing it: {type(e).__name__}: {str(e)[:120]}',
+                                   {'lines': [{'circuit': repr(circuit), 'version': version}], 'impl_out': [str(e)[:300]], 'spec_out': ['decomposed into exportable operations'], 'theorem_or_correspondence': 'Spec.Qasm (decomposition)'})
             continue
         rep = {'lines': [{'circuit': repr(circuit), 'order': [repr(q) for q in order], 'version': version, 'qasm': text}]}
         try:
@@ -326,6 +335,21 @@ def run(ctx: common.Run):
             ctx.report_witness(sig, 'the classical registers of the emitted OpenQASM program do not have the joint distribution of the circuit\'s measurement results',
                                dict(rep, impl_out=[sorted((repr(k), round(v, 8)) for k, v in got.items())], spec_out=[sorted((repr(k), round(v, 8)) for k, v in want2.items())],
                                     theorem_or_correspondence='Spec.Qasm.runProgram vs Spec.Circuit.run'))
+
+
+def check_qudits_rejected(ctx, cirq):
+    """OpenQASM has qubits only: a circuit on qudits is refused, not written with the qubit gates of the same name"""
+    q3 = cirq.LineQid(0, 3)
+    for g in (cirq.XPowGate(dimension=3), cirq.ZPowGate(dimension=3), cirq.IdentityGate(qid_shape=(3,)), cirq.MatrixGate(np.eye(3), qid_shape=(3,))):
+        for version in ('2.0', '3.0'):
+            ctx.count('check', 'qudit-rejected')
+            ctx.case(['qudit', repr(g), version], True)
+            try:
+                text = cirq.Circuit(g.on(q3)).to_qasm(version=version)
+            except (ValueError, TypeError):
+                continue
+            ctx.report_witness('qasm:qudit-exported', 'a qudit operation is written as a qubit gate', {'lines': [{'gate': repr(g), 'version': version}], 'impl_out': [text[-200:]], 'spec_out': ['rejected'],
+                                                                                                      'theorem_or_correspondence': 'Spec.Qasm (qubit registers)'})
 
 
 def replay(ctx, rep):
